@@ -224,7 +224,7 @@ func c20Run(t *testing.T, in c20In, rng *vrng) (obs c20Obs) {
 		for i := 0; i < 400 && len(server.host.Network().ConnsToPeer(client.host.ID())) >= before && before > 1; i++ {
 			time.Sleep(5 * time.Millisecond)
 		}
-		time.Sleep(20 * time.Millisecond)
+		time.Sleep(200 * time.Millisecond) // libp2p tells the responder's registry about the closed connection a little later
 	}
 	if in.FirstAfter > 0 {
 		time.Sleep(time.Duration(in.FirstAfter) * time.Microsecond)
